@@ -371,4 +371,67 @@ theorem run_scans : ∀ (ops : List Op) (s : State) (i d : Nat), WF s → (run s
         rw [e1, e2]; omega
     · exact Or.inl (run_count_one (op :: ops) s i hwf (by rw [run_cons]; exact hc) h1)
 
+/-! ### histories without responses (a stopped actor: every `ServiceResponse` is a dead letter) -/
+
+theorem finish_ninst (s : State) (id : Nat) : (finish s id).ninst = s.ninst := by
+  unfold finish; split <;> rfl
+
+theorem tickLoop_ninst : ∀ (l : List Nat) (s : State), (tickLoop s l).ninst = s.ninst := by
+  intro l
+  induction l with
+  | nil => intro s; rfl
+  | cons id rest ih =>
+    intro s
+    unfold tickLoop
+    split
+    · rfl
+    · split
+      · exact finish_ninst s id
+      · rw [ih, finish_ninst]
+
+theorem step_ninst_le (s : State) (op : Op) : s.ninst ≤ (step s op).ninst := by
+  cases op with
+  | issue r o c =>
+    simp only [step, issue]
+    repeat' split
+    all_goals simp
+  | noroute r c => simp only [step, noroute]; split <;> simp
+  | response id p =>
+    simp only [step, response]
+    repeat' split
+    all_goals simp [finish_ninst]
+  | tick order =>
+    simp only [step, tick]
+    repeat' split
+    all_goals simp [tickLoop_ninst]
+  | ret =>
+    simp only [step, ret]
+    repeat' split
+    all_goals simp [tickLoop_ninst]
+  | panic => simp only [step, panicScan]; split <;> simp
+  | advance dt => simp [step]
+
+/-- without a `response` op, a completion that is new in the history is the timeout — or the synchronous error of
+a call made later (a fresh instance number) -/
+theorem run_new_cb_no_response : ∀ (more : List Op) (s : State), (∀ id p, Op.response id p ∉ more) →
+    ∀ (i id : Nat) (o : Outcome) (t : Nat), Ev.cb i id o t ∈ (run s more).log → Ev.cb i id o t ∉ s.log →
+    o = .timeout ∨ ((o = .serErr ∨ o = .noService) ∧ s.ninst ≤ i) := by
+  intro more
+  induction more with
+  | nil => intro s _ i id o t hin hnew; exact absurd hin hnew
+  | cons op rest ih =>
+    intro s hno i id o t hin hnew
+    rw [run_cons] at hin
+    have hno' : ∀ id p, Op.response id p ∉ rest := fun id p h => hno id p (List.mem_cons_of_mem _ h)
+    by_cases h1 : Ev.cb i id o t ∈ (step s op).log
+    · rcases step_new_cb h1 hnew with (⟨e, _⟩ | ⟨_, e, _⟩) | ⟨e, ei, _⟩ | ⟨p, w, e, _⟩ | ⟨e, ei, _⟩
+      · exact Or.inl e
+      · exact Or.inl e
+      · exact Or.inr ⟨Or.inl e, by omega⟩
+      · exact absurd (e ▸ List.mem_cons_self ..) (hno id p)
+      · exact Or.inr ⟨Or.inr e, by omega⟩
+    · rcases ih _ hno' i id o t hin h1 with h | ⟨h, hle⟩
+      · exact Or.inl h
+      · exact Or.inr ⟨h, Nat.le_trans (step_ninst_le s op) hle⟩
+
 end Cell2v.Service
